@@ -102,7 +102,7 @@ def r01_2_3(duke, R, S):
     for b in range(256):
         res, ev = D.eval_arm(p2, b, inline=inl)
         arm = D.arm_for(p2, b)
-        reads = D.reads_of(ev)[1:]        # drop the opcode byte itself
+        reads = D.payload_reads(ev, p2)        # without the opcode byte itself
         o = by_val.get(b)
         key = "0x%02x" % b
         if o is None:
@@ -185,7 +185,7 @@ def r01_2_3(duke, R, S):
         for opv, nm in ((0xaa, "tableswitch"), (0xab, "lookupswitch")):
             arm = D.arm_for(m, opv)
             res, ev = D.eval_arm(m, opv, inline=inl)
-            reads = [r[1] for r in D.reads_of(ev)[1:]]
+            reads = [r[1] for r in D.payload_reads(ev, m)]
             want_prefix = ["align4", "i32:label", "i32", "i32"] if nm == "tableswitch" else ["align4", "i32:label", "i32"]
             R.inst(rule, "%s:%s-header" % (pname, nm), reads == want_prefix, sp=arm["sp"], expect=want_prefix, got=reads)
             loops = _iteration_bodies(arm["body"])
@@ -1293,7 +1293,7 @@ def r01_11(duke, R, S):
                     R.inst("R01.11", "vti:%d=invalid" % tag, res[0] == "err", sp=arm["sp"], nontrivial=tag == 9)
                     continue
                 R.inst("R01.11", "vti:%d:%s" % (tag, tag_name[tag]), res[0] == "v" and res[1] == tag_name[tag], sp=arm["sp"], expect=tag_name[tag], got=T.show(res)[:40])
-                reads = D.reads_of(ev)[1:]
+                reads = D.payload_reads(ev, ms[0])
                 kinds = [r[1] + (":" + D.consumer_kind(arm["body"], r[3]) if D.consumer_kind(arm["body"], r[3]) else "") for r in reads]
                 R.inst("R01.11", "vti-payload:%s" % tag_name[tag], kinds == S["verification_payload"].get(tag_name[tag], []), sp=arm["sp"],
                        expect=S["verification_payload"].get(tag_name[tag], []), got=kinds, nontrivial=bool(kinds))
